@@ -1029,6 +1029,16 @@ Theorem C16_zsh_conflicts_groups :
 Proof. exact (conj conflict_targets_arg (conj conflict_targets_group (conj conflict_targets_resolves unroll_total))). Qed.
 Print Assumptions C16_zsh_conflicts_groups.
 
+(** round 4, value names: every line of an option that REQUIRES a value carries [:vn:] (followed by the value completion),
+    [vn] = the first value name of the argument, a blank when it has none *)
+Theorem C16_zsh_option_value_name : forall c g a ad line,
+  a_min_values a <> 0%N -> In line (opt_lines c g (a, ad)) ->
+  exists val, zvalue_completion (a, ad) = Some val /\
+    In (Zx ([58] ++ value_name a ++ [58])) line /\
+    value_name a = match a_value_names a with [] => [32] | v :: _ => v end.
+Proof. exact opt_line_value_name. Qed.
+Print Assumptions C16_zsh_option_value_name.
+
 (** the panic sites of [arg_conflicts] are hoisted into [get_args_of]: it fails exactly through the bin name of a command
     with subcommands or through an unresolvable conflict of one of the command's options / flags *)
 Theorem C16_zsh_args_fail_only_on_conflicts : forall c d g,
@@ -1156,6 +1166,62 @@ Theorem C16_zsh_build_ok_resolved : forall c bin b,
   build (set_bin_name c bin) = Some b -> conflicts_resolve b None = true -> cres_below b -> zsh_ok b bin.
 Proof. exact build_zsh_ok_resolved. Qed.
 Print Assumptions C16_zsh_build_ok_resolved.
+
+(** round 4, [Complete/ZshBuildConflicts.v]: the class ON THE USER'S TREE for trees that DO declare conflicts.
+    [conflicts_declared_ok l]: in the argument list [l] of a command, an argument that declares conflicts is not global and
+    every entry of its blacklist names an argument or a group of [l]; [cdo_all]: at every command of the tree.  [build] keeps
+    it -- it only appends arguments (help, version, the parent's global arguments) and in the class all of them have an empty
+    blacklist -- and it implies the local class at every node of the built tree, hence [zsh_ok]: exact lookup, dispatch,
+    coverage and totality for the file [generate_zsh] writes *)
+From ClapModel Require Complete.ZshBuildConflicts.
+Theorem C16_zsh_build_keeps_conflicts_class : forall c b,
+  build c = Some b -> ZshBuildConflicts.cdo_all c = true ->
+  ZshBuildConflicts.cdo_all b = true /\ forall n, (n = b \/ desc b n) -> conflicts_local n = true.
+Proof.
+  intros c b Hb Hc. pose proof (ZshBuildConflicts.ca_build c b Hb Hc) as H.
+  exact (conj H (fun n Hn => ZshBuildConflicts.ca_local b n H Hn)).
+Qed.
+Print Assumptions C16_zsh_build_keeps_conflicts_class.
+
+Theorem C16_zsh_conflicts_class_meaning : forall c,
+  (ZshBuildConflicts.cdo_all c = true <->
+     ZshBuildConflicts.conflicts_declared_ok (c_args c) = true /\ forall sc, In sc (c_subs c) -> ZshBuildConflicts.cdo_all sc = true) /\
+  ZshBuildConflicts.conflicts_declared_ok (c_args c) =
+    forallb (fun a => (is_nil (a_blacklist a)
+                       || (negb (a_global a)
+                           && forallb (fun id => (is_some (find (fun y => beq (a_id y) id) (c_args c))
+                                                  || existsb (in_group id) (c_args c))%bool) (a_blacklist a)))%bool)
+            (c_args c) /\
+  (NushellLexProofs.args_all no_bl c = true -> ZshBuildConflicts.cdo_all c = true).
+Proof. intros c. exact (conj (ZshBuildConflicts.ca_iff c) (conj eq_refl (ZshBuildConflicts.ca_no_bl c))). Qed.
+Print Assumptions C16_zsh_conflicts_class_meaning.
+
+Theorem C16_zsh_build_ok_conflicts : forall c bin b,
+  BuildLinked.nb c = true -> bin <> [] -> nospace c -> siblings_ok c -> BuildSkeleton.help_free false c = true ->
+  ZshBuildConflicts.cdo_all c = true ->
+  build (set_bin_name c bin) = Some b -> zsh_ok b bin.
+Proof. exact ZshBuildConflicts.build_zsh_ok_conflicts. Qed.
+Print Assumptions C16_zsh_build_ok_conflicts.
+
+Theorem C16_zsh_generate_ok_conflicts : forall c d bin,
+  BuildLinked.nb c = true -> bin <> [] -> nospace c -> siblings_ok c -> BuildSkeleton.help_free false c = true ->
+  ZshBuildConflicts.cdo_all c = true ->
+  exists b s, build (set_bin_name c bin) = Some b /\ zsh_ok b bin /\
+              generate_zsh c d bin = Some s /\ zsh_script b (dbuild (set_bin_name c bin) d) = Some s.
+Proof. exact ZshBuildConflicts.generate_zsh_ok_conflicts. Qed.
+Print Assumptions C16_zsh_generate_ok_conflicts.
+
+(** satisfiable: a global flag, a group [g1] = {a, b}, [--c] conflicting with the group and with [a], in the root and in a
+    subcommand; not conflict-free; the file has the exclusion list and the propagated global flag *)
+Theorem C16_zsh_generate_ok_conflicts_nonvacuous :
+  BuildLinked.nb ZshBuildConflicts.zu_root = true /\ nospace ZshBuildConflicts.zu_root /\ siblings_ok ZshBuildConflicts.zu_root /\
+  BuildSkeleton.help_free false ZshBuildConflicts.zu_root = true /\ ZshBuildConflicts.cdo_all ZshBuildConflicts.zu_root = true /\
+  NushellLexProofs.args_all no_bl ZshBuildConflicts.zu_root = false /\
+  exists s, generate_zsh ZshBuildConflicts.zu_root cd0 [112] = Some s /\
+    binfix [39; 40; 45; 45; 97; 32; 45; 45; 98; 98; 32; 45; 45; 97; 41; 45; 45; 99; 91; 93; 39; 32; 92] s = true /\
+    binfix [39; 45; 45; 118; 101; 114; 98; 111; 115; 101; 91; 93; 39; 32; 92] s = true.
+Proof. exact ZshBuildConflicts.generate_zsh_ok_conflicts_example. Qed.
+Print Assumptions C16_zsh_generate_ok_conflicts_nonvacuous.
 
 Theorem C16_zsh_generate_ok : forall c d bin,
   BuildLinked.nb c = true -> bin <> [] -> nospace c -> siblings_ok c -> BuildSkeleton.help_free false c = true ->
@@ -1458,7 +1524,7 @@ Print Assumptions C16_six_mentions_meaning.
 (** for subcommand names without a hyphen every hypothesis is on the tree the user wrote *)
 Theorem C16_six_generators_mention_the_same_spellings_plain : forall up c t d bin ws ns n a,
   BuildLinked.nb c = true -> dd_safe bin = true -> bin <> [] -> siblings_ok c -> BuildSkeleton.help_free false c = true ->
-  (forall m, desc c m -> BashUser.bash_name (c_name m) = true) -> NushellLexProofs.args_all no_bl c = true ->
+  (forall m, desc c m -> BashUser.bash_name (c_name m) = true) -> ZshBuildConflicts.cdo_all c = true ->
   reach c ws ns n -> In a (c_args n) -> a_is_positional a = false -> CrossShell.arg_has_primary a ->
   (forall s, CrossShell.spelled_short a s ->
      CrossShell.bash_mentions c bin ns ([45] ++ s) /\
